@@ -143,6 +143,7 @@ macro_rules | `(tactic| respects_step) => `(tactic| first
   | with_reducible exact respects_viPrefix
   | with_reducible exact respects_viChar
   | with_reducible exact respects_readCharS _ _
+  | with_reducible exact respects_readKey
   | ((with_reducible refine respects_reader _ (fun _ => ?_)); (norm_inv; try rfl))
   | (with_reducible refine respects_repeatM _ ?_)
   | (with_reducible refine respects_modify' (fun _ => ?_)); rfl
